@@ -49,6 +49,8 @@ def run(tier, seed):
                  "directories whose mkdir succeeded in this run. Decides these necessary conditions, not the filesystem behaviour "
                  "(kernel path resolution, crash points) and not collapse_path's internals.")
     with Context(tier) as ctx:
+        from .. import selfcheck
+        selfcheck.run(ctx, rep, ['facts'])
         mod = ctx.plain()
         cg = CallGraph(mod)
         rep.analysed = {"view": "plain", "functions": len(mod.defined()), "units": len(ctx.views.units),
